@@ -385,6 +385,10 @@ def prepare_attr_value(
     Returns:
         The prepared value.
     """
+    if value is UNCHANGED:
+        # Nothing to prepare: the attribute keeps whatever it currently holds
+        # (in particular a collection is not replaced by an empty one).
+        return UNCHANGED
     value = mutate_value(
         old_value=MISSING,
         new_value=value,
